@@ -36,11 +36,20 @@ def _sig(path, i, s, obs):
            "map_differs": obs["all"] != exp["all"] or obs["call"] != exp["call"],
            "ret_differs": obs["ret"] != exp["ret"]}
     if s["act"] == "parseline":
-        line = s["args"][0]
-        body = [x for x in line if x not in (13, 10)]
-        sig["line"] = ("blank" if not body else "ws-only-continuation" if all(x in (32, 9) for x in body)
-                       else "continuation" if body[0] in (32, 9) else "field")
+        sig["line"] = _line_kind(s["args"][0])
+        sig["edge_ws"] = _edge_ws(obs)
     return sig
+
+
+def _line_kind(line):
+    body = [x for x in line if x not in (13, 10)]
+    return ("blank" if not body else "ws-only-continuation" if all(x in (32, 9) for x in body)
+            else "continuation" if body[0] in (32, 9) else "field")
+
+
+def _edge_ws(obs):
+    """some stored value starts or ends with SP / HTAB"""
+    return any(v and (v[0] in (32, 9) or v[-1] in (32, 9)) for _, v in obs["all"] + obs["call"])
 
 
 def replayer(extra, path):
@@ -127,10 +136,11 @@ def random_trace(args):
         ev.append({"a": a, "args": [t2s(x) for x in args_], "obs": obs, "pre_in": pre_in})
         if a in ("del", "pop"):
             can_cont = False
-        elif a == "add" or (a == "parseline" and args_[0][:1] not in (" ", "\t", "")):
-            can_cont = obs["err"] == "none" or can_cont
-        if pre_in == 1 and obs["err"] != "none":
-            break               # a present name that cannot be read / deleted: the trace ends at the anomaly
+        elif (a == "add" or (a == "parseline" and _line_kind(t2s(args_[0])) == "field")) and obs["err"] == "none":
+            can_cont = True
+        if (pre_in == 1 and obs["err"] != "none") or _edge_ws(obs):
+            break               # anomaly (present name not readable / deletable, stored value with edge
+                                # whitespace): the rest could not be matched anyway, the trace ends here
     return {"id": tid, "cfg": {}, "ev": ev}
 
 
@@ -138,8 +148,12 @@ def _c2s_sig(t, bad, l):
     if not bad:
         return {}
     a = bad["a"]
-    return {"api": a[1:] if a in ("cadd", "cset", "cdel", "cget") else a, "obs_err": bad["obs"]["err"],
-            "present_before": bad.get("pre_in")}
+    sig = {"api": a[1:] if a in ("cadd", "cset", "cdel", "cget") else a, "obs_err": bad["obs"]["err"],
+           "present_before": bad.get("pre_in")}
+    if a == "parseline":
+        sig["line"] = _line_kind(bad["args"][0])
+        sig["edge_ws"] = _edge_ws(bad["obs"])
+    return sig
 
 
 def run(ctx):
@@ -160,7 +174,7 @@ def run(ctx):
                                     "ContFormats": "{1, 2, 3}", "BadSel": 1})
     ctx.replay(sims, replayer, label="s2c-sim")
     # 3. code -> spec
-    n = ctx.pick(1000, 10000)
+    n = ctx.pick(400, 8000)
     jobs = [(i + 1, ctx.seed * 1000003 + i, 40) for i in range(n)]
     traces = framework.pool_map(random_trace, jobs)
     ctx.validate("httpm", "Trace_HeaderMap", "Trace_HeaderMap.cfg", traces, sig_fn=_c2s_sig)
